@@ -151,8 +151,11 @@ def run(ctx):
                 if m is None:
                     continue
                 if "exc" in m:
-                    if m["exc"] == "ZeroDivision" and nm in ("determinize", "min_det"):
-                        stats["determinize_zero_division"] += 1   # outside the premise "whenever determinisation terminates"
+                    allpos = all(common.num(e[-1]) > 0 for e in c["wfsa"]["arcs"] + c["wfsa"]["start"] + c["wfsa"]["stop"])
+                    if m["exc"] == "ZeroDivision" and nm in ("determinize", "min_det") and not allpos:
+                        # weights of both signs can cancel a subset's mass: outside the premise "whenever determinisation terminates";
+                        # with positive weights the subset construction never divides by zero (`det_no_zeroDiv_of_pos`)
+                        stats["determinize_zero_division"] += 1
                         continue
                     semantic.append(_viol(c, hs, nm, None, m))
                     continue
@@ -219,7 +222,7 @@ def run(ctx):
                 "x all strings ≤ 3; non-trivial = distinct automata with an accepted and a rejected string",
         "samples": samples, "traces": traces, "semantic": semantic, "structural": structural,
         "extra": {"shape_histogram": shapes, "hashseeds": hashseeds, "stats": stats, "cases": len(cases)},
-        "assumptions": ["determinize raising ZeroDivisionError (a symbol leading only to dead states) is outside the premise 'whenever determinisation terminates' and is counted, not reported"],
+        "assumptions": ["determinize raising ZeroDivisionError is tolerated only for inputs with weights of both signs (cancelling subset mass); for positive weights it is a violation"],
     }
 
 
